@@ -62,6 +62,10 @@ type Plan struct {
 	Policy   string            `json:"policy,omitempty"`   // how the schedule was produced (informational)
 	Schedule []SchedEntry      `json:"schedule,omitempty"` // executed schedule; replay follows it
 	Expect   *Expect           `json:"expect,omitempty"`
+	// Prelude: runs executed (outcomes ignored) in the same process before this
+	// one. Needed only to replay violations that depend on process-global state
+	// of the code under test left behind by earlier runs.
+	Prelude []*Plan `json:"prelude,omitempty"`
 }
 
 func (p *Plan) Clone() *Plan {
@@ -189,11 +193,17 @@ type PolicyChooser struct {
 	starve  int
 }
 
+// CoarseMode (flag -sim.coarse): pre-empt at operation boundaries only.
+var CoarseMode = false
+
 var Policies = []string{"uniform", "sticky", "roundrobin", "pct", "starve", "serial"}
 
 func NewPolicyChooser(r *Rand, policy string, ntasks int, jumps bool) *PolicyChooser {
 	c := &PolicyChooser{R: r, Policy: policy, Jumps: jumps, last: -1}
 	c.MaxQ = []int{1, 3, 8, 20, 40, 120, 400}[r.Intn(7)]
+	if CoarseMode {
+		c.MaxQ = []int{1, 1, 2, 3}[r.Intn(4)]
+	}
 	c.SwitchP = []float64{0.05, 0.2, 0.5}[r.Intn(3)]
 	c.prio = r.Perm(ntasks + 1)
 	c.changes = map[int64]bool{}
